@@ -8,8 +8,10 @@ before every such call the harness asks the real `find` what matches; afterwards
 document was added iff nothing matched, nothing existing was touched by an insert, a matching
 call equals the same call without upsert (run on a twin), the new document is what an
 independent reference builds (seed from the filter's equalities, then the update with
-`$setOnInsert`), the reported upserted_id is the new document's `_id` with matched_count 0,
-and a pure-equality filter finds the new document again.
+`$setOnInsert`; equality conditions one below the other must raise), the reported upserted_id is
+the new document's `_id` with matched_count 0, and a pure-equality filter - the empty field name
+included - finds the new document again.  The witnesses of the repaired defects
+(known_findings.json, status "fixed") are replayed through oracle and correspondence on every run.
 """
 import copy
 import sys
@@ -29,10 +31,14 @@ RULE = ('history = 2-14 generated operations, about two thirds of them update_on
         'and as {$eq: v} - v a scalar (two thirds), an empty / flat / nested sub-document, an array, '
         'or a sub-document with an operator inside - on fields and on dotted paths, _id (scalar and '
         'embedded), _id.k and operator conditions ($gt $in $ne $exists), aimed at existing '
-        'documents about half of the time; updates with 1-3 '
+        'documents about half of the time; a tenth of the filters carry an empty field name (\'\', '
+        '\'a.\'), an operator condition below an equality ({b: {}, \'b.k\': {$gt: 1}}, either order) or '
+        'an equality below another one (which must raise); updates with 1-3 '
         'operators including $setOnInsert; every step is compared with the Lean model (outcome, '
         'full state) and judged directly on python against find-before / find-after, a twin run '
-        'without upsert and an independent seed + operator reference; non-trivial = an upsert that '
+        'without upsert and an independent seed + operator reference (which also says when the '
+        'equality conditions conflict and the call must raise); the witnesses of the repaired '
+        'defects are replayed first; non-trivial = an upsert that '
         'inserted a document whose seed has a dotted path or whose filter has an operator '
         'condition; distinct = by hash of the history')
 ASSUMPTIONS = [
@@ -104,6 +110,33 @@ class Gen13(hist.HistGen):
             elif x < 0.78:
                 k = r.choice(gen.FIELDS) + '.' + r.choice(gen.FIELDS + ['0'])
                 f[k] = self.condition(None, k) if r.random() < 0.8 else {'$gt': 1}
+            elif x < 0.81:
+                # the empty field name is a field name like any other
+                k = r.choice(['', '', r.choice(gen.FIELDS) + '.', '.' + r.choice(gen.FIELDS)])
+                f[k] = self.condition(None, k) if r.random() < 0.7 else self.cond_value(None, k)
+            elif x < 0.86:
+                # an operator condition below an equality contributes nothing (either key order)
+                k = r.choice(gen.FIELDS)
+                sub = k + '.' + r.choice(gen.FIELDS + ['k'])
+                eqv = r.choice([{}, {'k': 1}, 3, 'x', {r.choice(gen.FIELDS): 2}, [1]])
+                opc = r.choice([{'$gt': 1}, {'$exists': False}, {'$in': [1, 2]}, {'$ne': 1}])
+                if r.random() < 0.5:
+                    f[k] = eqv
+                    f[sub] = opc
+                else:
+                    f[sub] = opc
+                    f[k] = eqv
+            elif x < 0.89:
+                # an equality below another equality: no document can be inferred (WriteError)
+                k = r.choice(gen.FIELDS + ['_id'])
+                sub = k + '.' + r.choice(gen.FIELDS + ['k'])
+                eqv = r.choice([{}, {'k': 1}, 3, {'$eq': {'k': 2}}])
+                if r.random() < 0.5:
+                    f[k] = eqv
+                    f[sub] = r.choice([1, {'$eq': 1}])
+                else:
+                    f[sub] = r.choice([1, {'$eq': 1}])
+                    f[k] = eqv
             elif x < 0.95:
                 k = r.choice(gen.FIELDS)
                 f[k] = r.choice([{'$gt': r.choice([0, 2, 100])}, {'$in': [1, 'x', 9]},
@@ -187,17 +220,27 @@ def is_opdoc(v):
     return isinstance(v, dict) and v and any(str(k).startswith('$') for k in v)
 
 
+class Conflict(Exception):
+    """the equality conditions of the filter contradict each other: one lies at or below another"""
+
+
 def seed_of(filt):
     """the document the filter's equality conditions describe (independent of mongomock):
-    plain values and {$eq: v} contribute, dotted paths are expanded, operator conditions and
-    logical operators contribute nothing; raises refupdate.Unknown when it will not commit"""
+    plain values and {$eq: v} contribute, dotted paths are expanded (every component, the empty
+    one included, is a field name), operator conditions and logical operators contribute
+    nothing; raises Conflict when an equality lies at or below another one (the new document
+    always has an `_id`: a generated one counts), refupdate.Unknown when it will not commit"""
     seed = {}
     paths = []
-    for k, v in filt.items():
+    items = list(filt.items())
+    if '_id' not in filt:
+        items.append(('_id', None))    # the generated / update-given _id takes part in conflicts
+    for n, (k, v) in enumerate(items):
         if k.startswith('$'):
             raise refupdate.Unknown('top-level operator')
-        if '$' in k or k == '' or '..' in k or k.startswith('.') or k.endswith('.'):
+        if '$' in k:
             raise refupdate.Unknown('odd path')
+        parts = k.split('.')
         if is_opdoc(v):
             if set(v) == {'$eq'}:
                 v = v['$eq']
@@ -207,36 +250,15 @@ def seed_of(filt):
                 continue
         if isinstance(v, dict) and has_dollar(v):
             raise refupdate.Unknown('operator inside an embedded value')
-        parts = k.split('.')
         for q in paths:
             if q[:len(parts)] == parts or parts[:len(q)] == q:
-                raise refupdate.Unknown('conflicting paths')
+                raise Conflict('%r / %r' % ('.'.join(q), k))
         paths.append(parts)
         if any(p.isdigit() for p in parts):
             raise refupdate.Unknown('numeric component')
-        refupdate.set_at(seed, parts, copy.deepcopy(v))
-    return seed, paths
-
-
-def op_under_eq(filt):
-    """known class `upsert-op-under-eq`: an operator condition on a dotted path that runs through
-    the sub-document given as the value of an equality condition stated earlier in the filter
-    ({'b': {}, 'b.k': {'$gt': 1}}): `_expand_dots` merges the operator document into that value
-    instead of leaving it alone (in the other order, or over a scalar, it raises WriteError)"""
-    if not isinstance(filt, dict):
-        return False
-    eq_paths = []
-    for k, v in filt.items():
-        k = str(k)
-        if k.startswith('$'):
-            continue
-        parts = k.split('.')
-        if is_opdoc(v) and '$eq' not in v:
-            if any(len(q) < len(parts) and parts[:len(q)] == q for q in eq_paths):
-                return True
-        elif isinstance(v, dict) and not is_opdoc(v):
-            eq_paths.append(parts)
-    return False
+        if n < len(filt):
+            refupdate.set_at(seed, parts, copy.deepcopy(v))
+    return seed, paths[:len(paths) if '_id' in filt else -1]
 
 
 def has_dollar(v):
@@ -360,12 +382,11 @@ def judge(history, i, st, prev, docs, up, pre):
                       'documents: %r -> %r' % (k, prev, docs[:len(prev)])))
     nd = new[0]
     if k in UPD and isinstance(out, dict):
-        # (a null _id cannot be told from "no upsert" in UpdateResult: upserted_id None,
-        #  matched_count = n — with the real driver too)
-        if out.get('matched') != 0 and nd.get('_id') is not None:
+        # (also for a null _id: upserted_id is then None, but nothing was matched either)
+        if out.get('matched') != 0:
             fails.append((i, 'upsert-matched-count', '%s upserted but reports matched_count %r'
                           % (k, out.get('matched'))))
-        if nd.get('_id') is not None and freeze(out.get('upserted')) != freeze(nd.get('_id')):
+        if freeze(out.get('upserted')) != freeze(nd.get('_id')):
             fails.append((i, 'upserted-id', '%s reports upserted_id %r, the new document has _id %r'
                           % (k, out.get('upserted'), nd.get('_id'))))
     if k in FAM:
@@ -383,27 +404,33 @@ def judge(history, i, st, prev, docs, up, pre):
         exp = expected_new(filt, spec, replace)
     except refupdate.Unknown:
         exp = None
+    except Conflict as e:
+        exp = None
+        fails.append((i, 'upsert-conflict-accepted', '%s(upsert=True) filter %r: the equality '
+                      'conditions %s lie one below the other, no document can be inferred, yet the '
+                      'call inserted %r' % (k, filt, e, nd)))
     except Exception:  # pylint: disable=broad-except
         exp = None
+    if k in UPD + ('find_one_and_update',) and isinstance(st.op[2], dict):
+        unknown = refupdate.unknown_operators(st.op[2])
+        clause = refupdate.addtoset_clause(st.op[2])
+        if unknown and k != 'replace_one':
+            fails.append((i, 'unknown-operator-accepted', '%s(upsert=True) %r inserted %r although '
+                          '%r is no update operator' % (k, st.op[2], nd, unknown[0])))
+        elif clause and k != 'replace_one':
+            fails.append((i, 'addtoset-clause-accepted', '%s(upsert=True) %r inserted %r although '
+                          '$addToSet.%s carries %r next to $each'
+                          % (k, st.op[2], nd, clause[0], clause[1])))
     nullid = isinstance(filt, dict) and '_id' in filt and filt['_id'] is None
     if exp is not None:
         keep = isinstance(exp, dict) and '_id' in exp
         if not refupdate.same_doc(strip_id(exp, keep), strip_id(nd, keep)) and \
                 not operator_quirk(spec, exp, nd):
             lab = 'upsert-content'
-            if op_under_eq(filt):
-                lab = 'upsert-op-under-eq'
             if nullid and refupdate.same_doc(strip_id(exp, False), strip_id(nd, False)):
                 lab = 'nullid'
             fails.append((i, lab, '%s(upsert=True) filter %r update %r inserted %r, '
                           'seed + update give %r' % (k, filt, spec, nd, exp)))
-    # known: the matcher reads the empty key as "the whole document", so a filter with an empty
-    # key never finds the document built from it
-    pr0 = (st.extra or {}).get('probe')
-    if pr0 and 'error' not in pr0 and isinstance(filt, dict) and '' in filt and \
-            (len(docs) - 1) not in pr0['found']:
-        fails.append((i, 'upsert-empty-key', '%s(upsert=True): the inserted document %r is not '
-                      'found by the filter %r (empty field name)' % (k, nd, filt)))
     # matched again by the same filter when it is made of equalities the update does not touch
     pr = (st.extra or {}).get('probe')
     if pr and 'error' not in pr and isinstance(filt, dict):
@@ -412,7 +439,7 @@ def judge(history, i, st, prev, docs, up, pre):
             # equality conditions only: plain values and {$eq: v}
             pure = all(not is_opdoc(v) or set(v) == {'$eq'} for v in filt.values()) and \
                 not has_dollar(seed) and no_nulls_or_arrays(seed)
-        except refupdate.Unknown:
+        except (refupdate.Unknown, Conflict):
             pure = False
         if pure:
             ups = update_paths(spec)
@@ -461,4 +488,31 @@ def nontrivial(history, steps):
     return False
 
 
-run, replay, replay_finding = histcheck.module_api(sys.modules[__name__], 900, 22000)
+_run, replay, replay_finding = histcheck.module_api(sys.modules[__name__], 900, 22000)
+
+
+def fixed_witnesses(ctx, mod):
+    """the witnesses of the repaired defects (known_findings.json, status "fixed") go through the
+    oracle and the model correspondence on every run: a recurrence is a VIOLATION"""
+    import wire
+    eng = histcheck.Engine(ctx, mod)
+    n = 0
+    for e in common.load_known(ID):
+        if e.get('status') != 'fixed' or not e.get('witness', {}).get('wire_history'):
+            continue
+        oids = wire.Oids()
+        history = wire.dec(e['witness']['wire_history'], oids)
+        py = histcheck.run_history(history, oids, '5.0.5', probe, pre_probe)
+        out = wire.run_driver([hist.model_line(history, oids, False)])
+        eng.judge(history, oids, py, histcheck.model_steps(history, out[0]))
+        n += 1
+    return n
+
+
+def run(ctx, proof, driver_ok):
+    if not driver_ok:
+        return {'explanation': 'model driver unavailable'}
+    n = fixed_witnesses(ctx, sys.modules[__name__])
+    cov = _run(ctx, proof, driver_ok)
+    cov['fixed_witnesses_replayed'] = n
+    return cov
